@@ -15,7 +15,7 @@ import os, sys, re, json, time, subprocess, hashlib, random, fcntl, traceback, c
 
 VERIF = os.path.dirname(os.path.dirname(os.path.abspath(__file__)))
 LEAN = os.path.join(VERIF, 'lean')
-EVID = os.path.join(VERIF, 'evidence')
+EVID = os.path.join(VERIF, 'evidence' + os.environ.get('VERIF_EVID_SUFFIX', ''))  # .seeded when evaluating a patched scratch tree
 REPLAY = os.path.join(EVID, 'replay')
 REPO = os.environ.get('NUMQI_REPO', '/repo')
 ALLOWED_AXIOMS = {'propext', 'Classical.choice', 'Quot.sound'}
